@@ -95,7 +95,7 @@ impl Prop for C09 {
         }
     }
     fn required_probes(&self, _tier: Tier) -> Vec<&'static str> {
-        vec!["flip_prev", "flip_merkle", "flip_tx", "swap_other_height", "swap_foreign", "bad_genesis", "consistent_from_genesis", "consistent_start_gt_0", "odd_level_tree", "flip_at_first_processed_height", "flip_in_auxpow_block", "narrow_range_of_long_chain"]
+        vec!["flip_prev", "flip_merkle", "flip_tx", "swap_other_height", "swap_foreign", "bad_genesis", "consistent_from_genesis", "consistent_start_gt_0", "odd_level_tree", "flip_at_first_processed_height", "flip_in_auxpow_block", "narrow_range_of_long_chain", "flip_genesis_header_field"]
     }
     fn explore(&self, item: u64, rng: &mut Rng, tier: Tier, h: &mut Harness) -> Result<(), String> {
         let n_cons = if tier == Tier::Quick { 200 } else { 4000 };
@@ -189,9 +189,21 @@ impl Prop for C09 {
             world.chain.push(b);
         }
         world.extras = vec![foreign(rng, 1), foreign(rng, 2)];
+        // another coin's real genesis block (all-zero prev, consistent merkle root): must not pass for this coin
+        let other = if coin == "bitcoin" { "testnet3" } else { "bitcoin" };
+        if let Some(og) = genesis_block(other) {
+            world.extras.push(ExtraBlock {
+                block: og,
+                kind: "foreign".into(),
+                index: None,
+                parent_height: None,
+                parent_extra: None,
+            });
+        }
         let mut lay = single_file_layout(nb);
-        lay.files[0].segs.push(Seg::Extra { i: 0 });
-        lay.files[0].segs.push(Seg::Extra { i: 1 });
+        for xi in 0..world.extras.len() {
+            lay.files[0].segs.push(Seg::Extra { i: xi });
+        }
         world.layouts = vec![lay];
         world.index = index_opts(rng);
         let real_genesis = g.is_some() && w % 2 == 0;
@@ -215,7 +227,8 @@ impl Prop for C09 {
         }
         for hh in heights {
             let bb = &m.built.active[hh as usize];
-            let mut offs: Vec<u64> = (4..68).collect();
+            // block 0 must hash to the genesis hash: there every header bit matters; elsewhere only prev and merkle
+            let mut offs: Vec<u64> = if hh == 0 && real_genesis { (0..80).collect() } else { (4..68).collect() };
             let tx_start = bb.txs[0].off;
             for o in tx_start..bb.bytes.len() {
                 if !bb.txs.iter().any(|t| t.uncovered.iter().any(|u| o >= u.0 && o < u.1)) {
@@ -246,7 +259,7 @@ impl Prop for C09 {
                     h.check(&mut c)?;
                 }
             }
-            for x in 0..2 {
+            for x in 0..world.extras.len() {
                 if mine() {
                     let mut c = world.clone();
                     c.family = "swap".into();
@@ -309,7 +322,9 @@ impl Prop for C09 {
         } else {
             match r.disk_faults.first() {
                 Some(DiskFault::FlipBit { height, off, .. }) => {
-                    if *off < 36 {
+                    if *height == 0 && (*off < 4 || *off >= 68) {
+                        st.probe("flip_genesis_header_field");
+                    } else if *off < 36 {
                         st.probe("flip_prev");
                     } else if *off < 68 {
                         st.probe("flip_merkle");
